@@ -149,6 +149,16 @@ class _InlineFunction(XPathFunction):
                     return v
 
             if sequence_type.startswith('xs:') and any(
+                    isinstance(x, XPathNode) for x in (v if isinstance(v, list) else [v])):
+                # atomization: a node is replaced by its typed value
+                v = [y for x in (v if isinstance(v, list) else [v])
+                     for y in (x.iter_typed_values if isinstance(x, XPathNode) else [x])]
+                if len(v) == 1:
+                    v = v[0]
+                if match_sequence_type(v, sequence_type, self.parser):
+                    return v
+
+            if sequence_type.startswith('xs:') and any(
                     isinstance(x, XPathFunction) and not isinstance(x, XPathArray)
                     for x in (v if isinstance(v, list) else [v])):
                 raise self.error('FOTY0013', "a function item cannot be atomized")
